@@ -6,8 +6,8 @@
    theorems of Props/C12.v) are about - for every input, well-formed or not.
    [emb_res f] / [emb_gen f] (Model.DecEmb) = the decoder's typed result as Python values: the value returned, or the
    items yielded and then exhaustion / the exception.  A line `(*@ name *)` names the decoder a theorem depends on. *)
-From AV Require Import Base.Util Model.Prim Model.Crc Model.MsgSet Model.Responses Model.DecDSL Model.DecEmb Model.DecAst
-     Proofs.DecDSLSound.
+From AV Require Import Base.Util Model.Prim Model.Crc Model.MsgSet Model.Responses Model.DecDSL Model.ReadDSL Model.DecEmb Model.DecAst
+     Proofs.DecDSLSound Proofs.ReadDSLSound.
 
 (*@ get_response_correlation_id *)
 Theorem C05gen_correlation_id : forall msgset data,
@@ -119,3 +119,63 @@ Theorem C05gen_sync_member_assignment : forall msgset data,
   run 0 msgset data ast_decode_sync_group_member_assignment = emb_res v_assignment (decode_sync_group_member_assignment data).
 Proof. exact sound_assignment. Qed.
 Print Assumptions C05gen_sync_member_assignment.
+
+(* ================================================================== the readers of afkak/_util.py, translated from
+   their source into the reader language Model.ReadDSL (integer cursor, length tests, slices): each IS the suffix-based
+   reader of Model.Prim every codec model is built on - reader(data, cur) = Prim reader on data[cur:], the new cursor
+   being len data - len rest - for every buffer and every cursor inside it *)
+(*@ util_read_short_bytes *)
+Theorem C05gen_read_short_bytes : forall data cur,
+  0 <= cur <= len data ->
+  rrun ast_util_read_short_bytes [] data cur
+  = match read_short_bytes (drop (Z.to_nat cur) data) with
+    | Ok (v, rest) => Ok (rv_ob v, len data - len rest)
+    | Err e => Err e
+    end.
+Proof. exact sound_util_read_short_bytes. Qed.
+Print Assumptions C05gen_read_short_bytes.
+
+(*@ util_read_int_string *)
+Theorem C05gen_read_int_string : forall data cur,
+  0 <= cur <= len data ->
+  rrun ast_util_read_int_string [] data cur
+  = match read_int_string (drop (Z.to_nat cur) data) with
+    | Ok (v, rest) => Ok (rv_ob v, len data - len rest)
+    | Err e => Err e
+    end.
+Proof. exact sound_util_read_int_string. Qed.
+Print Assumptions C05gen_read_int_string.
+
+(*@ util_read_short_ascii util_read_short_bytes *)
+Theorem C05gen_read_short_ascii : forall data cur,
+  0 <= cur <= len data ->
+  rrun_decoded ast_util_read_short_bytes ast_util_read_short_ascii data cur
+  = match read_short_ascii (drop (Z.to_nat cur) data) with
+    | Ok (b, rest) => Ok (RBytes b, len data - len rest)
+    | Err e => Err e
+    end.
+Proof. exact sound_util_read_short_ascii. Qed.
+Print Assumptions C05gen_read_short_ascii.
+
+(*@ util_read_short_text util_read_short_bytes *)
+Theorem C05gen_read_short_text : forall data cur,
+  0 <= cur <= len data ->
+  rrun_decoded ast_util_read_short_bytes ast_util_read_short_text data cur
+  = match read_short_text (drop (Z.to_nat cur) data) with
+    | Ok (b, rest) => Ok (RBytes b, len data - len rest)
+    | Err e => Err e
+    end.
+Proof. exact sound_util_read_short_text. Qed.
+Print Assumptions C05gen_read_short_text.
+
+(* relative_unpack with ANY struct format of the seven integer codes = the fields one after the other *)
+(*@ util_relative_unpack *)
+Theorem C05gen_relative_unpack : forall fmt data cur,
+  0 <= cur <= len data ->
+  rrun ast_util_relative_unpack fmt data cur
+  = match unpack_seq fmt (drop (Z.to_nat cur) data) with
+    | Ok (vs, rest) => Ok (RTuple vs, len data - len rest)
+    | Err e => Err e
+    end.
+Proof. exact sound_util_relative_unpack. Qed.
+Print Assumptions C05gen_relative_unpack.
